@@ -12,9 +12,9 @@ package metadata
 import (
 	"context"
 	"fmt"
-	"strings"
 	"sync"
 	"testing"
+	"time"
 
 	"github.com/VKCOM/statshouse/internal/data_model/gen2/tlmetadata"
 	"github.com/VKCOM/statshouse/internal/zzverif/verifkit"
@@ -76,6 +76,13 @@ func c15RPCRound(r *verifkit.Run, round, nOps, nSubs int) {
 	for i := range limits {
 		limits[i] = []int64{1, 2, 3, 1000}[rnd.IntN(4)]
 	}
+	type subOutcome struct {
+		ended, failed, timedOut, persistent, directSeen bool
+		stuckAt                                         int64
+		newer                                           string
+		diag, transient                                 []string
+	}
+	outcomes := make([]subOutcome, nSubs) // each written by its subscriber only, read after wg.Wait
 	var wg sync.WaitGroup
 	for s := 0; s < nSubs; s++ {
 		wg.Add(1)
@@ -117,12 +124,54 @@ func c15RPCRound(r *verifkit.Run, round, nOps, nSubs int) {
 					break
 				}
 			}
-			// catch up without waiting
-			for i := 0; i < 100000; i++ {
-				n, failed := poll(context.Background(), false)
-				if failed || n == 0 {
-					break
+			// catch up without waiting, until the table verifiably holds nothing newer.  An empty answer
+			// while it does is judged only when persistent (>= 5 repeats over >= 2 s, RPC and DBV2).
+			out := &outcomes[s]
+			bg := context.Background()
+			deadline := time.Now().Add(60 * time.Second)
+			for {
+				if time.Now().After(deadline) {
+					out.timedOut = true
+					return
 				}
+				n, failed := poll(bg, false)
+				if failed {
+					out.failed = true
+					return
+				}
+				if n > 0 {
+					continue
+				}
+				exists, newer := mdkNewerInTable(db, from)
+				if !exists {
+					out.ended = true
+					return
+				}
+				var diag []string
+				recovered, directSeen := false, false
+				start := time.Now()
+				for try := 1; (try <= 5 || time.Since(start) < 2*time.Second) && try <= 60; try++ {
+					time.Sleep(450 * time.Millisecond)
+					n2, failed2 := poll(bg, false)
+					direct, derr := db.JournalEvents(bg, from, limits[s])
+					if len(direct) > 0 {
+						directSeen = true
+					}
+					diag = append(diag, fmt.Sprintf("repeat %d after %d ms: rpc %d events (failed=%v); DBV2.JournalEvents %d events err=%v; in-package journal select: %s", try, time.Since(start).Milliseconds(), n2, failed2, len(direct), derr, mdkJournalProbe(db, from)))
+					if failed2 {
+						out.failed = true
+						return
+					}
+					if n2 > 0 {
+						recovered = true
+						break
+					}
+				}
+				if !recovered {
+					out.persistent, out.stuckAt, out.newer, out.diag, out.directSeen = true, from, newer, diag, directSeen
+					return
+				}
+				out.transient = append(out.transient, fmt.Sprintf("from version %d, table held %s: %v", from, newer, diag))
 			}
 		}(s)
 	}
@@ -280,21 +329,26 @@ func c15RPCRound(r *verifkit.Run, round, nOps, nSubs int) {
 				viol("journal/limit", fmt.Sprintf("%d events for limit %d", len(a.Events), a.Limit), map[string]any{"subscriber": s})
 			}
 		}
-		if n := len(answers[s]); n > 0 && answers[s][n-1].Err == "" && len(answers[s][n-1].Events) == 0 && answers[s][n-1].From < m.maxVer {
-			a := answers[s][n-1]
-			var tail []string
-			for _, x := range answers[s][max(0, n-6):] {
-				tail = append(tail, fmt.Sprintf("from=%d limit=%d long=%v -> %d events, current=%d, err=%q; direct DBV2.JournalEvents at that moment: %s", x.From, x.Limit, x.Long, len(x.Events), x.Current, x.Err, x.Direct))
-			}
+		out := outcomes[s]
+		for _, tr := range out.transient {
+			r.NotJudged("transient_empty_journal_page", 1)
+			r.T.Logf("C15 rpc round %d subscriber %d: transient empty journal answer %s", round, s, tr)
+		}
+		switch {
+		case out.timedOut:
+			r.Inconclusive(fmt.Sprintf("rpc round %d: subscriber %d did not finish catching up within 60 s (harness starved)", round, s))
+		case out.persistent:
 			key := "journal/no-progress"
-			if a.Direct != "" && !strings.HasPrefix(a.Direct, "0 events") {
+			if out.directSeen {
 				key = "journal/empty-answer-while-database-returns-newer-versions" // the handler, not DBV2.JournalEvents
 			}
-			viol(key, fmt.Sprintf("subscriber %d asked for the journal from version %d (limit %d, return-if-empty) and got an empty answer although version %d exists: a paging reader never gets past this point", s, a.From, a.Limit, m.maxVer), map[string]any{"subscriber": s, "last_answers": tail})
-		}
-		for id, e := range m.ents {
-			if latest[id].Version != e.Ver {
-				viol("journal/latest-missing", fmt.Sprintf("after catching up, subscriber %d holds entity %d at version %d, latest accepted is %d", s, id, latest[id].Version, e.Ver), map[string]any{"subscriber": s})
+			viol(key, fmt.Sprintf("subscriber %d asked for the journal from version %d (limit %d, return-if-empty) and keeps getting an empty answer over %d repeats although the table holds %s: a paging reader never gets past this point", s, out.stuckAt, limits[s], len(out.diag), out.newer), map[string]any{"subscriber": s, "repeats": out.diag})
+		case out.ended:
+			// the subscriber verifiably reached the end of the table: it must hold every latest version
+			for id, e := range m.ents {
+				if latest[id].Version != e.Ver {
+					viol("journal/latest-missing", fmt.Sprintf("after catching up to the end of the table, subscriber %d holds entity %d at version %d, latest accepted is %d", s, id, latest[id].Version, e.Ver), map[string]any{"subscriber": s})
+				}
 			}
 		}
 		r.Count("rpc.journal_answers", int64(len(answers[s])))
@@ -315,7 +369,8 @@ func TestVerifC15RPC(t *testing.T) {
 	r := verifkit.Start(t, "C15", "rpc")
 	defer r.Finish()
 	mdkAssumeSQLite(r)
-	r.Assume("long polls that are cancelled by the harness at the end of a round are not answers; liveness of the long poll itself is not judged (no wall clock in the verdict)")
+	r.Assume("long polls that are cancelled by the harness at the end of a round are not answers; liveness of the long poll itself is not judged")
+	r.Assume("an empty journal page while the table holds a larger version is judged only when persistent (the same request repeated >= 5 times over >= 2 s of real time, through RPC and through DBV2.JournalEvents, stays empty); one that recovers is counted NotJudged (transient_empty_journal_page) and logged with diagnostics")
 	r.SetRule("rounds over a fresh database behind the real rpc.Server: 50 (quick) / 120 (thorough) generated entity requests through tlmetadata.Client.EditEntitynew, judged by the reference model; 3 subscriber goroutines follow the journal with long polls (limits 1/2/3/1000) and catch up at the end; GetEntity / GetHistoryShortInfo read-backs. One case = one judged RPC answer, read-back or subscriber stream. Non-trivial = accepted or refused-after-accepted request / entity with ≥2 versions / stream with ≥2 events.")
 	rounds := r.N(12, 60)
 	nOps := r.N(50, 120)
